@@ -92,9 +92,50 @@ Proof. unfold FL. rewrite poppers_app. simpl. induction p; simpl; auto. Qed.
 
 (* ------------------------------------------------------------------ *)
 
+Definition is_end (m : mop) : bool := match m with MLeaks | MEpilogue => true | _ => false end.
+Definition clean (w : list mop) : Prop := forallb (fun m => negb (is_end m)) w = true.
+
+Lemma clean_app a b : clean a -> clean b -> clean (a ++ b).
+Proof. unfold clean. intros A B. rewrite forallb_app, A, B. reflexivity. Qed.
+
+Lemma clean_work l : forallb is_work l = true -> clean l.
+Proof.
+  unfold clean. induction l as [|m l IH]; simpl; auto. intros H. apply andb_prop in H as [H1 H2].
+  rewrite (IH H2). destruct m; try reflexivity; discriminate H1.
+Qed.
+
+Lemma clean_map {X} (f : X -> mop) l : (forall x, is_end (f x) = false) -> clean (map f l).
+Proof. unfold clean. intros H. induction l as [|x l IH]; simpl; auto. rewrite IH, H. reflexivity. Qed.
+
+Lemma clean_cons m w : clean (m :: w) -> is_end m = false /\ clean w.
+Proof. unfold clean. simpl. intros H. apply andb_prop in H as [H1 H2]. split; auto. apply negb_true_iff; auto. Qed.
+
+Lemma handle_clean m s pre s' : handle m s = (pre, s') -> is_end m = false -> clean pre.
+Proof.
+  intros E NE. destruct (is_work m) eqn:W.
+  { apply clean_work. eapply handle_work; eauto. }
+  destruct m; try discriminate W; try discriminate NE; simpl in E.
+  - unfold do_top in E. destruct o; repeat (revert E; dest_match; intros E); unfold bad in *; inversion E; subst; reflexivity.
+  - inversion E; subst. apply clean_map. reflexivity.
+  - destruct idle; [destruct (idleq s)|]; inversion E; subst; reflexivity.
+  - destruct (t >? now s); inversion E; subst; apply clean_map; reflexivity.
+  - destruct (mainq s) as [|c l] eqn:MQ; [destruct (lazyq s) as [|c l] eqn:LQ|]; inversion E; subst; try reflexivity.
+    + change (MRunItem c :: map MRunItem l ++ [MLoop t]) with (map MRunItem (c :: l) ++ [MLoop t]).
+      apply clean_app; [apply clean_map; reflexivity | reflexivity].
+    + change (MRunItem c :: map MRunItem l ++ [MLoop t]) with (map MRunItem (c :: l) ++ [MLoop t]).
+      apply clean_app; [apply clean_map; reflexivity | reflexivity].
+  - destruct (i >=? TEARDOWN_ROUNDS); [inversion E; subst; reflexivity|].
+    destruct (mainq s) as [|c l] eqn:MQ; inversion E; subst; try reflexivity.
+    change (MDropItem c :: map MDropItem l ++ [MDrain (i + 1)]) with (map MDropItem (c :: l) ++ [MDrain (i + 1)]).
+    apply clean_app; [apply clean_map; reflexivity | reflexivity].
+  - inversion E; subst. apply clean_app; [apply clean_map; reflexivity | reflexivity].
+  - inversion E; subst. reflexivity.
+  - destruct (amin (env s)) as [[h v]|]; inversion E; subst; reflexivity.
+Qed.
+
 Inductive Tail (k : list mop) (s : st) : Prop :=
-| tail_prog w : k = w ++ [MEpilogue] -> Tail k s
-| tail_epi w : k = w ++ [MDropAll; MLeaks] -> Tail k s
+| tail_prog w : k = w ++ [MEpilogue] -> clean w -> Tail k s
+| tail_epi w : k = w ++ [MDropAll; MLeaks] -> clean w -> Tail k s
 | tail_leaks : k = [MLeaks] -> env s = [] -> frames s = [] -> Tail k s
 | tail_done : k = [] -> Tail k s.
 
@@ -105,20 +146,36 @@ Lemma step_Tail k s k' s' : FL k s -> Tail k s -> step k s = Some (k', s') -> Ta
 Proof.
   intros F T H. destruct k as [|m k0]; [discriminate|]. simpl in H.
   destruct (handle m s) as [pre s1] eqn:E. inversion H; subst; clear H.
-  destruct T as [w K|w K|K EN FR|K]; try discriminate.
+  destruct T as [w K NL|w K NL|K EN FR|K]; try discriminate.
   - destruct w as [|m' w]; simpl in K; inversion K; subst.
     + simpl in E. inversion E; subst. simpl.
-      apply (tail_epi _ _ [MTop TDropStakker; MDropAll; MTop (TNew 0); MTop TDropStakker; MDropAll; MTop (TNew 0); MTop TDropStakker]). reflexivity.
-    + apply (tail_prog _ _ (pre ++ w)). rewrite app_assoc. reflexivity.
+      apply (tail_epi _ _ [MTop TDropStakker; MDropAll; MTop (TNew 0); MTop TDropStakker; MDropAll; MTop (TNew 0); MTop TDropStakker]); reflexivity.
+    + apply clean_cons in NL as [N1 N2].
+      apply (tail_prog _ _ (pre ++ w)). rewrite app_assoc. reflexivity.
+      apply clean_app; auto. eapply handle_clean; eauto.
   - destruct w as [|m' w]; simpl in K; inversion K; subst.
     + simpl in E. destruct (amin (env s)) as [[h v]|] eqn:AM; inversion E; subst.
-      * apply (tail_epi _ _ [MDropVal v]). reflexivity.
+      * apply (tail_epi _ _ [MDropVal v]); reflexivity.
       * simpl. apply tail_leaks; auto.
         -- apply amin_none; auto.
         -- unfold FL in F. simpl in F. destruct (frames s'); [reflexivity | discriminate].
-    + apply (tail_epi _ _ (pre ++ w)). rewrite app_assoc. reflexivity.
+    + apply clean_cons in NL as [N1 N2].
+      apply (tail_epi _ _ (pre ++ w)). rewrite app_assoc. reflexivity.
+      apply clean_app; auto. eapply handle_clean; eauto.
   - inversion K; subst. simpl in E. inversion E; subst. simpl. apply tail_done. reflexivity.
 Qed.
 
+Lemma clean_tops p : clean (map MTop p).
+Proof. apply clean_map. reflexivity. Qed.
+
 Lemma Tail_init d p : Tail (map MTop p ++ [MEpilogue]) (init d).
-Proof. apply (tail_prog _ _ (map MTop p)). reflexivity. Qed.
+Proof. apply (tail_prog _ _ (map MTop p)). reflexivity. apply clean_tops. Qed.
+
+(* when the leak report is due, nothing else is pending *)
+Lemma Tail_leaks k0 s : Tail (MLeaks :: k0) s -> k0 = [] /\ env s = [] /\ frames s = [].
+Proof.
+  intros T. destruct T as [w K NL|w K NL|K EN FR|K]; try discriminate.
+  - destruct w as [|m' w]; simpl in K; inversion K; subst. apply clean_cons in NL as [N1 _]. discriminate.
+  - destruct w as [|m' w]; simpl in K; inversion K; subst. apply clean_cons in NL as [N1 _]. discriminate.
+  - inversion K; subst. auto.
+Qed.
